@@ -38,7 +38,8 @@ type c04ServerCfg struct {
 }
 
 type c04Cmd struct {
-	Op      string            // req | quiesce | close
+	Op      string            // reset | req | quiesce | close
+	Cfg     *c04ServerCfg     `json:",omitempty"` // reset: build a fresh server instance
 	Method  string            `json:",omitempty"`
 	Path    string            `json:",omitempty"`
 	Headers map[string]string `json:",omitempty"`
@@ -79,19 +80,18 @@ func c04StatsOf(buf *ingest.ArrowBuffer) c04Stats {
 		Errors: geti("total_errors"), Depth: geti("flush_queue_depth"), Active: geti("active_buffers")}
 }
 
-func c04ChildMain() {
-	var cfg c04ServerCfg
-	if err := json.Unmarshal([]byte(os.Getenv("VERIF_C04_CFG")), &cfg); err != nil {
-		fmt.Fprintln(os.Stderr, "c04 child: bad config:", err)
-		os.Exit(4)
+// c04Instance is one server instance: storage + ArrowBuffer + fiber app.
+type c04Instance struct {
+	buf *ingest.ArrowBuffer
+	app interface {
+		Test(req *http.Request, msTimeout ...int) (*http.Response, error)
 	}
-	in := json.NewDecoder(os.NewFile(3, "cmd"))
-	out := json.NewEncoder(os.NewFile(4, "resp"))
+}
 
+func c04NewInstance(cfg c04ServerCfg) (*c04Instance, error) {
 	be, err := storage.NewLocalBackend(cfg.Root, zerolog.Nop())
 	if err != nil {
-		fmt.Fprintln(os.Stderr, "c04 child: storage:", err)
-		os.Exit(4)
+		return nil, err
 	}
 	buf := ingest.NewArrowBuffer(&config.IngestConfig{
 		MaxBufferSize:   cfg.MaxBufferSize,
@@ -115,7 +115,13 @@ func c04ChildMain() {
 	ih := NewImportHandler(logger)
 	ih.SetArrowBuffer(buf)
 	ih.RegisterRoutes(app)
+	return &c04Instance{buf: buf, app: app}, nil
+}
 
+func c04ChildMain() {
+	in := json.NewDecoder(os.NewFile(3, "cmd"))
+	out := json.NewEncoder(os.NewFile(4, "resp"))
+	var inst *c04Instance
 	for {
 		var cmd c04Cmd
 		if err := in.Decode(&cmd); err != nil {
@@ -126,6 +132,27 @@ func c04ChildMain() {
 			os.Exit(4)
 		}
 		var resp c04Resp
+		if cmd.Op == "reset" {
+			// a fresh server instance (new storage root, buffer, app) in this process
+			if inst != nil {
+				_ = inst.buf.Close()
+			}
+			var err error
+			if inst, err = c04NewInstance(*cmd.Cfg); err != nil {
+				resp.Err = "reset: " + err.Error()
+			}
+			resp.Mode = "reset"
+			if err := out.Encode(&resp); err != nil {
+				os.Exit(4)
+			}
+			continue
+		}
+		if inst == nil {
+			resp.Err = "no server instance (reset first)"
+			_ = out.Encode(&resp)
+			continue
+		}
+		buf := inst.buf
 		resp.Before = c04StatsOf(buf)
 		switch cmd.Op {
 		case "req":
@@ -138,7 +165,7 @@ func c04ChildMain() {
 				req.Header.Set(k, v)
 			}
 			req.ContentLength = int64(len(cmd.Body))
-			r, terr := app.Test(req, -1)
+			r, terr := inst.app.Test(req, -1)
 			if terr != nil {
 				resp.Err = "app.Test: " + terr.Error()
 				break
@@ -151,11 +178,15 @@ func c04ChildMain() {
 			// is an ordinary request to the admin flush endpoint sent by the parent).
 			resp.Mode = c04Quiesce(buf)
 		case "close":
-			resp.After = c04StatsOf(buf)
+			// Close() of this instance; the process stays for the next reset.
 			_ = buf.Close()
 			resp.Mode = "closed"
-			_ = out.Encode(&resp)
-			os.Exit(0)
+			inst = nil
+			resp.After = c04StatsOf(buf)
+			if err := out.Encode(&resp); err != nil {
+				os.Exit(4)
+			}
+			continue
 		default:
 			resp.Err = "unknown op " + cmd.Op
 		}
@@ -201,9 +232,36 @@ type c04Child struct {
 	stderrF  *os.File
 	stderrAt int64
 	dead     bool
+	served   int // server instances built in this process
 }
 
+// c04StartChild starts a child process and builds its first server instance.
 func c04StartChild(cfg c04ServerCfg) (*c04Child, error) {
+	c, err := c04Spawn()
+	if err != nil {
+		return nil, err
+	}
+	if err := c.reset(cfg); err != nil {
+		c.stop()
+		return nil, err
+	}
+	return c, nil
+}
+
+// reset asks the child for a fresh server instance (closing the previous one).
+func (c *c04Child) reset(cfg c04ServerCfg) error {
+	resp, died, diag := c.do(c04Cmd{Op: "reset", Cfg: &cfg})
+	if died {
+		return fmt.Errorf("child died on reset: %s", diag)
+	}
+	if resp.Err != "" {
+		return fmt.Errorf("%s", resp.Err)
+	}
+	c.served++
+	return nil
+}
+
+func c04Spawn() (*c04Child, error) {
 	bin := os.Getenv("VERIF_BIN")
 	if bin == "" {
 		var err error
@@ -211,7 +269,6 @@ func c04StartChild(cfg c04ServerCfg) (*c04Child, error) {
 			return nil, err
 		}
 	}
-	cj, _ := json.Marshal(cfg)
 	cmdR, cmdW, err := os.Pipe()
 	if err != nil {
 		return nil, err
@@ -225,7 +282,7 @@ func c04StartChild(cfg c04ServerCfg) (*c04Child, error) {
 		return nil, err
 	}
 	c := exec.Command(bin)
-	c.Env = append(os.Environ(), "VERIF_MODE=c04-server", "VERIF_C04_CFG="+string(cj), "VERIF_OUT=", "GOTRACEBACK=all")
+	c.Env = append(os.Environ(), "VERIF_MODE=c04-server", "VERIF_OUT=", "GOTRACEBACK=all")
 	c.ExtraFiles = []*os.File{cmdR, respW}
 	c.Stdout = stderrF
 	c.Stderr = stderrF
